@@ -23,7 +23,7 @@ import time
 REPO = os.environ.get('VERIF_REPO', '/repo')
 SRC = os.path.join(REPO, 'src')
 PKG = os.path.join(SRC, 'exabgp')
-CACHE_DIR = os.path.join(os.path.dirname(os.path.dirname(os.path.abspath(__file__))), '.cache')
+CACHE_DIR = os.environ.get('VERIF_CACHE') or os.path.join(os.path.dirname(os.path.dirname(os.path.abspath(__file__))), '.cache')
 
 BRIDGE_VERSION = 10
 
